@@ -766,7 +766,7 @@ Proof.
         destruct (is_argument it) eqn:Ia.
         -- destruct rest as [|[b mb] rest']; [destruct (unspec_later _ _ _ _ _); discriminate|].
            destruct b as [c2 a2 o2|n2 a2 o2|w|w|w]; destruct mb; try (destruct (unspec_later _ _ _ _ _); discriminate).
-           ++ (* ArgWord *) destruct adj; [|destruct (unspec_later _ _ _ _ _); discriminate].
+           ++ (* ArgWord *)
               apply att_cons_done in H. destruct H as (a' & H & ->). cbn [length] in Hn.
               destruct (IH rest' ltac:(lia) (S (S ix)) a' H) as (W & Ho & Hw & Hu & Hnf).
               unfold scan_good. cbn [at_roles at_occ at_words tag_from app].
@@ -786,8 +786,7 @@ Proof.
               ** cbn [words_of flat_map snd app]. exact Hw.
               ** cbn [untag map fst live_from app]. f_equal. f_equal. exact Hu.
               ** intros x [<-|[<-|Hx]]; [discriminate|discriminate|exact (Hnf x Hx)].
-        -- destruct adj; [destruct (unspec_later _ _ _ _ _); discriminate|].
-           apply att_cons_done in H. destruct H as (a' & H & ->).
+        -- apply att_cons_done in H. destruct H as (a' & H & ->).
            destruct (IH rest ltac:(lia) (S ix) a' H) as (W & Ho & Hw & Hu & Hnf).
            unfold scan_good. cbn [at_roles at_occ at_words tag_from app].
            repeat split.
@@ -802,8 +801,7 @@ Proof.
         destruct (is_argument it) eqn:Ia.
         -- destruct rest as [|[b mb] rest']; [destruct (unspec_later _ _ _ _ _); discriminate|].
            destruct b as [c2 a2 o2|n2 a2 o2|w|w|w]; destruct mb; try (destruct (unspec_later _ _ _ _ _); discriminate).
-           ++ destruct adj; [|destruct (unspec_later _ _ _ _ _); discriminate].
-              apply att_cons_done in H. destruct H as (a' & H & ->). cbn [length] in Hn.
+           ++ apply att_cons_done in H. destruct H as (a' & H & ->). cbn [length] in Hn.
               destruct (IH rest' ltac:(lia) (S (S ix)) a' H) as (W & Ho & Hw & Hu & Hnf).
               unfold scan_good. cbn [at_roles at_occ at_words tag_from app].
               repeat split.
@@ -821,8 +819,7 @@ Proof.
               ** cbn [words_of flat_map snd app]. exact Hw.
               ** cbn [untag map fst live_from app]. f_equal. f_equal. exact Hu.
               ** intros x [<-|[<-|Hx]]; [discriminate|discriminate|exact (Hnf x Hx)].
-        -- destruct adj; [destruct (unspec_later _ _ _ _ _); discriminate|].
-           apply att_cons_done in H. destruct H as (a' & H & ->).
+        -- apply att_cons_done in H. destruct H as (a' & H & ->).
            destruct (IH rest ltac:(lia) (S ix) a' H) as (W & Ho & Hw & Hu & Hnf).
            unfold scan_good. cbn [at_roles at_occ at_words tag_from app].
            repeat split.
@@ -1052,21 +1049,17 @@ Proof.
         destruct (is_argument it).
         -- destruct r as [|[b mb] r']; [destruct (unspec_later _ _ _ _ _); discriminate|].
            destruct b; destruct mb; try (destruct (unspec_later _ _ _ _ _); discriminate).
-           ++ destruct adj; [|destruct (unspec_later _ _ _ _ _); discriminate].
-              apply att_cons_cmd in H. destruct H as [a' H]. eapply IH; [|exact H]. cbn in Hn. lia.
            ++ apply att_cons_cmd in H. destruct H as [a' H]. eapply IH; [|exact H]. cbn in Hn. lia.
-        -- destruct adj; [destruct (unspec_later _ _ _ _ _); discriminate|].
-           apply att_cons_cmd in H. destruct H as [a' H]. eapply IH; [|exact H]. lia.
+           ++ apply att_cons_cmd in H. destruct H as [a' H]. eapply IH; [|exact H]. cbn in Hn. lia.
+        -- apply att_cons_cmd in H. destruct H as [a' H]. eapply IH; [|exact H]. lia.
       * destruct (is_help _); [discriminate|].
         destruct (find_owner items _ 0) as [[k it]|]; [|destruct (find_owner anc _ 0); [discriminate|]; destruct (unspec_later _ _ _ _ _); discriminate].
         destruct (is_argument it).
         -- destruct r as [|[b mb] r']; [destruct (unspec_later _ _ _ _ _); discriminate|].
            destruct b; destruct mb; try (destruct (unspec_later _ _ _ _ _); discriminate).
-           ++ destruct adj; [|destruct (unspec_later _ _ _ _ _); discriminate].
-              apply att_cons_cmd in H. destruct H as [a' H]. eapply IH; [|exact H]. cbn in Hn. lia.
            ++ apply att_cons_cmd in H. destruct H as [a' H]. eapply IH; [|exact H]. cbn in Hn. lia.
-        -- destruct adj; [destruct (unspec_later _ _ _ _ _); discriminate|].
-           apply att_cons_cmd in H. destruct H as [a' H]. eapply IH; [|exact H]. lia.
+           ++ apply att_cons_cmd in H. destruct H as [a' H]. eapply IH; [|exact H]. cbn in Hn. lia.
+        -- apply att_cons_cmd in H. destruct H as [a' H]. eapply IH; [|exact H]. lia.
       * destruct (unspec_later _ _ _ _ _); discriminate.
       * destruct (dashy w); [discriminate|]. destruct tail as [|ps|cs].
         -- destruct (unspec_later _ _ _ _ _); discriminate.
